@@ -22,7 +22,7 @@ for n in names:
     try:
         r = {}
         for c in checks:
-            if not os.path.exists(V + "/harness/props/%s.py" % c.lower()):
+            if not (os.path.exists(V + "/harness/props/%s.py" % c.lower()) and os.path.exists(V + "/coq/Props/%s.v" % c)):
                 r[c] = "check not built"
                 continue
             p = subprocess.run([V + "/check", c, "--tier", "quick"], capture_output=True, text=True, cwd=V)
